@@ -59,7 +59,7 @@ LEVEL_NOTE = "Trusted: the disposable doubles and call-log checker (hv/gen/progr
 
 ENTERS = ("ok", "gate", "raise", "gate-raise")
 EXITS = ("ok", "gate", "raise", "gate-raise", "raise-base", "true")
-BODIES = ("return", "raise-exc", "cancel-self", "raise-base")
+BODIES = ("return", "raise-exc", "cancel-self", "raise-base", "raise-frozen")
 SAMPLE = {"quick": 2500, "thorough": 40_000}
 DFS_CAP = 130
 
@@ -87,7 +87,7 @@ def make_block(case: dict[str, Any]) -> dict[str, Any]:
     for i, (en, ex, y) in enumerate(case["disposables"]):
         ys = {"bad-generator": [["R3", next(uid)]], "none": [], "one": [[("D1", "R1", "BoxInt", "R2")[i % 4], next(uid)]], "list": [["R3", next(uid)], [("D2", "BoxStr")[i % 2], next(uid)]], "empty-list": [],
               "generator": [["R3", next(uid)], [("D2", "BoxStr")[i % 2], next(uid)]], "iter": [[("D1", "R1", "BoxInt", "R2")[i % 4], next(uid)]], "map": [["R3", next(uid)]], "tuple": [["R3", next(uid)], ["D2", next(uid)]]}[y]
-        ds.append({"yield": ys, "enter": en, "exit": ex, "form": y if y in ("list", "empty-list", "generator", "iter", "map", "tuple") else ("bad-generator" if y == "bad-generator" else "auto"), "falsy": (i + len(case["disposables"])) % 2 == 0, "awaitable": case.get("awaitable_all") or (i + len(en) + len(case["disposables"])) % 3 == 1})
+        ds.append({"yield": ys, "enter": en, "exit": ex, "form": y if y in ("list", "empty-list", "generator", "iter", "map", "tuple") else ("bad-generator" if y == "bad-generator" else "auto"), "exc_kind": ("plain", "frozen", "valueeq", "unhashable", "valueeq")[(i * 2 + len(en) + len(ex) + len(case["body"]) + len(case["disposables"])) % 5] if not case.get("same_exc_kind") else case["same_exc_kind"], "falsy": (i + len(case["disposables"])) % 2 == 0, "awaitable": case.get("awaitable_all") or (i + len(en) + len(case["disposables"])) % 3 == 1})
     return {"op": "block", "kind": "ascope", "name": "blk", "supply": [["SubD1", next(uid)]], "disposables": ds, "body": [{"op": "probe", "id": 1}], "exit": {"kind": case["body"]}, "catch": True}
 
 
@@ -297,6 +297,13 @@ def cases(tier: str, rng: random.Random):  # noqa: ANN201
             yield {"disposables": [*others, ["ok", "ok", "bad-generator"]], "body": body}
             yield {"disposables": [["ok", "sync-raise", "none"], *others], "body": body, "awaitable_all": True}
             yield {"disposables": [*others, ["ok", "sync-raise", "none"]], "body": body, "awaitable_all": True}
+    # every failing resource of the scope raises an exception of one awkward class: refusing attribute assignment (frozen), with
+    # value equality (two cleanup errors that compare equal are still two errors), with __eq__ but no __hash__
+    for kind in ("frozen", "valueeq", "unhashable"):
+        for body in BODIES[:3]:
+            for ds in ([["ok", "raise", "one"], ["ok", "raise", "none"]], [["ok", "gate-raise", "one"], ["ok", "raise", "none"], ["gate", "raise", "list"]], [["raise", "ok", "none"], ["ok", "ok", "one"]], [["ok", "gate-raise", "one"]],
+                       [["ok", "ok", "one"], ["gate-raise", "ok", "none"], ["ok", "gate", "list"]], [["ok", "raise", "one"], ["gate-raise", "ok", "none"]], [["raise", "ok", "one"], ["gate-raise", "ok", "none"], ["ok", "ok", "none"]]):
+                yield {"disposables": ds, "body": body, "same_exc_kind": kind}
     # the owning task is cancelled from outside at a scheduler-chosen moment, also while disposables are being entered
     for n in range(1, maxn + 2):
         for combo in itertools.product(itertools.product(("ok", "gate"), ("ok", "gate")), repeat=n):
